@@ -34,9 +34,9 @@ Definition inner (fl : bool) (pre lsub lprog : list rule) (kids : list node)
     (p : path) (s1 : istate) (qv qp : list diag) : rres :=
   let rk := run_kids kids p 0 s1 (if fl then [] else qv) qp in
   (r_st rk,
-   (if fl then qv else r_qv rk) ++ emit p lsub (r_st rk),
-   r_qp rk ++ emit p lprog (r_st rk),
-   emit p pre s1 ++ r_out rk ++ (if fl then flush_queue (r_qv rk) (r_st rk) else [])).
+   (if fl then qv else r_qv rk) ++ emit p lsub s1,
+   r_qp rk ++ emit p lprog s1,
+   emit p pre s1 ++ r_out rk ++ (if fl then r_qv rk else [])).
 
 Lemma run_inner_eq fl pre lsub lprog kids p s1 qv qp :
   run_inner run fl pre lsub lprog kids p s1 qv qp = inner fl pre lsub lprog kids p s1 qv qp.
